@@ -265,7 +265,20 @@ def run_c05(tier, replay=None):
         shutil.rmtree(synth, ignore_errors=True)
         from bdl_projects import write_synthetic_projects
         write_synthetic_projects(synth, 8 if quick else 60, seed())
-        st = vh(["locks", "--out", trace, "--rounds", "1" if quick else "6", "--threads", "16", "--extra-dirs", synth,
+        # buildings whose walls carry two windows, the second with devices and the first without (for the stability of ids
+        # when an unrelated window is added elsewhere)
+        geo = os.path.join(wd, "geo")
+        shutil.rmtree(geo, ignore_errors=True)
+        import geometry_checks
+        import bdl_projects as BPJ
+        box = {"ag": [1, 0, 1], "sp": {"x": 0, "y": 0, "z": 0, "h": 30, "as": [1, 0, 1], "outline": [[0, 0], [60, 0], [60, 40], [0, 40]]}, "pw": [], "rs": [], "vs": []}
+        for k in range(4 if quick else 16):
+            pj, _, _, _ = geometry_checks.project_of(box, k)
+            d = os.path.join(geo, "geo%02d" % k)
+            os.makedirs(d)
+            with open(os.path.join(d, "geo%02d.ctehexml" % k), "w", encoding="utf-8") as f:
+                f.write(BPJ.wrap_ctehexml(BPJ.print_bdl(pj, {"seed": k}), name="Geo %d" % k))
+        st = vh(["locks", "--out", trace, "--rounds", "1" if quick else "6", "--threads", "16", "--extra-dirs", synth, "--idmap-dirs", geo,
                  "--max-projects", "6" if quick else "12", "--generated", "6" if quick else "30", "--scratch", wd], timeout=7200)
         return trace, st
 
